@@ -1,3 +1,4 @@
 import TinyFlux.Audit.Tool
 import TinyFlux.Props.C18
+import TinyFlux.Props.C18State
 #audit TinyFlux.Props.C18
